@@ -60,6 +60,7 @@ func NewNode(cfg *GenesisCfg, el *ELSim, db dbm.DB) (*Node, error) {
 	if err != nil {
 		return nil, err
 	}
+	noteTemp(home)
 	key := cfg.Vals[cfg.NodeVal].Key
 	pv := privval.FilePVKey{
 		Address: cmtsecp.PubKey(key.Pub().Key).Address(),
